@@ -292,6 +292,26 @@ func c07Mutants(rng *rand.Rand, t c07Type, base map[string]interface{}) []c07Doc
 		d3 := c07Clone(base)
 		d3[f.Name] = c07Bad(f.Kind)
 		out = append(out, c07Doc{Fault: "wrong-kind:" + f.Kind, Doc: d3, Field: f.Name})
+		if f.Kind == "int" {
+			dfr := c07Clone(base)
+			dfr[f.Name] = 2.5
+			out = append(out, c07Doc{Fault: "fractional-number-for-int", Doc: dfr, Field: f.Name})
+		}
+		if f.Kind == "list" && f.Elem == "int" {
+			// a violating element of the same JSON kind as the conforming ones before it (every JSON number is one
+			// dynamic type to the server): the verdict on an element must not be inherited from its neighbours
+			for _, l := range [][]interface{}{{1, 2.5}, {7, 8, 9, 0.5}, {2.5, 1}, {3, -4.75, 5}} {
+				dl := c07Clone(base)
+				dl[f.Name] = l
+				out = append(out, c07Doc{Fault: "list-int-element-fractional", Doc: dl, Field: f.Name, Spell: f.Spelling})
+			}
+		}
+		if f.Kind == "list" && f.Elem != "int" && f.Elem != "float" && f.Elem != "union" {
+			// same idea for the other element kinds: good, good, bad of a different JSON kind, good
+			dl := c07Clone(base)
+			dl[f.Name] = []interface{}{c07Good(rng, f.Elem, ""), c07Good(rng, f.Elem, ""), c07Bad(f.Elem), c07Good(rng, f.Elem, "")}
+			out = append(out, c07Doc{Fault: "list-element-wrong-kind-in-the-middle", Doc: dl, Field: f.Name, Spell: f.Spelling})
+		}
 		if f.Kind == "list" {
 			d4 := c07Clone(base)
 			good := c07Good(rng, f.Elem, "")
@@ -384,6 +404,7 @@ type c07Probe struct {
 	expect map[string]interface{} // for conforming input: expected echo; for query: expected bindings
 	desc   interface{}
 	hasDefaults bool
+	form        string // return probes: how the value reaches the end of the route
 }
 
 func checkC07(tier string) {
@@ -547,11 +568,23 @@ func checkC07(tier string) {
 				docMs = append(docMs, m)
 			}
 		}
-		for k := 0; k < 2 && len(docMs) > 0; k++ {
+		for k := 0; k < 4 && len(docMs) > 0; k++ {
 			m := docMs[rng.Intn(len(docMs))]
-			fmt.Fprintf(&src, "@ GET /retbad%d -> T {\n  > %s\n}\n\n", k, c07Lit(m.Doc))
+			// the violating value reaches the end of the route in different ways: returned directly, through a variable,
+			// from inside a branch, or as the value of the last statement of a body that has no `>` at all
+			lit := c07Lit(m.Doc)
+			body := "  > " + lit + "\n"
+			switch k {
+			case 1:
+				body = "  $ v = " + lit + "\n  > v\n"
+			case 2:
+				body = "  $ c = 1\n  if c < 2 {\n    > " + lit + "\n  }\n  > " + c07Lit(goodRet) + "\n"
+			case 3:
+				body = "  $ v = " + lit + "\n"
+			}
+			fmt.Fprintf(&src, "@ GET /retbad%d -> T {\n%s}\n\n", k, body)
 			reqs = append(reqs, HReq{M: "GET", P: fmt.Sprintf("/retbad%d", k)})
-			probes = append(probes, c07Probe{what: "return", fault: m.Fault, spell: m.Spell, desc: m.Doc})
+			probes = append(probes, c07Probe{what: "return", fault: m.Fault, spell: m.Spell, desc: m.Doc, form: []string{"direct", "via-variable", "in-branch", "implicit-last-statement"}[k]})
 		}
 		for mode := 0; mode < 2; mode++ {
 			id := ti*2 + mode
@@ -694,6 +727,11 @@ func checkC07(tier string) {
 				okConf++
 			case p.what == "return":
 				r.Case(key, true)
+				if p.form == "implicit-last-statement" && rs.S >= 200 && rs.S < 300 && !strings.Contains(rs.B, "f0") && !strings.Contains(rs.B, "f1") {
+					okRej++ // nothing of the value went out (an engine that answers a body without `>` with no data)
+					continue
+				}
+				wit["return_form"] = p.form
 				if rs.S < 500 {
 					r.Violate("bad-return-value-delivered:"+p.fault+sp+":"+mode, fmt.Sprintf("a return value with fault %q was delivered with status %d: %s", p.fault, rs.S, clipN(rs.B, 100)), wit)
 					continue
